@@ -462,6 +462,22 @@ func (f *Frame) applyContractFn(fc *FuncContract, callee *ssa.Function, name str
 	heap := st.Heap
 	if clauses.modAll {
 		heap = f.havocAll(st.Heap)
+		for _, k := range fc.Keeps {
+			if fc.Trusted == "" {
+				f.fail("keeps is only allowed on trusted contracts (%s)", name)
+				break
+			}
+			t, err := f.w.ResolveType(k, fc.ScopePkg)
+			if err != nil {
+				f.fail("keeps %s: %v", k, err)
+				continue
+			}
+			comp := memCompT(t)
+			es := f.w.Sorts.SortOf(t)
+			r := Term{"r!", SInt}
+			o, n := st.Heap.Comp(comp, memSort(es)), heap.Comp(comp, memSort(es))
+			vc.Assume(Forall([]Term{r}, Implies(Le(r, st.Heap.Comp(allocComp, SInt)), Eq(Sel(n, r), Sel(o, r))), []Term{Sel(n, r)}))
+		}
 	} else {
 		// the callee may allocate: bump the watermark FIRST, so that the type facts
 		// of havoc'd locations (references <= alloc) refer to the post-call watermark
